@@ -4,6 +4,7 @@ CONSTANTS
   NCells = 2
   Kind = "ccube"
   LabelRule = "append"
+  LabelStore = "local"
 INVARIANT InBounds
 INVARIANT OneTaskPerBlock
 INVARIANT LabelIsData
